@@ -73,7 +73,24 @@ def _glue_error(message, tb):
         return False
     last = files[-1]
     if "/rtflite/" in last:
-        return False          # raised by the code under test (wherever its tree is checked out), never glue
+        # raised by the code under test (wherever its tree is checked out).  One exception: a signature TypeError is raised in
+        # the CALLER's frame; when the callee it names is a harness recorder (a nested function, a lambda or a stand-in class of
+        # /verif - i.e. not a function or class of the package) the harness is outdated, the property is not violated
+        import re
+        import sys
+        m = re.match(r"TypeError: ([\w.<>]+)\(\) (got an unexpected|got multiple|takes|missing)", message.strip())
+        if not m:
+            return False
+        qual = m.group(1)
+        if "<locals>" in qual or "<lambda>" in qual:
+            return True
+        head = qual.split(".")[0]
+        for name, mod in list(sys.modules.items()):
+            if mod is not None and (name == "rtflite" or name.startswith("rtflite.")) and hasattr(mod, head):
+                obj = getattr(mod, head)
+                if getattr(obj, "__module__", "").startswith("rtflite"):
+                    return False
+        return True
     return ("/vf/" in last and VERIF in last) or "/h_" in last or "vf-" in last
 
 
